@@ -1339,3 +1339,35 @@ def exit_error(body, x):
                     continue
                 return ('call', cs)
     return None
+
+
+def lookup_or_error(body, get_cs, err_variant):
+    """the function returns `Ok(value found by get_cs)` when the lookup finds something and `Err(<err_variant>)` when it
+    does not - written with `ok_or` (possibly after `copied()`), or as an explicit match on the lookup.  err_variant is
+    (adt, variant).  Returns (ok, detail)."""
+    xs = exits(body)
+    adapters = [x for x in xs if x['kind'] == 'call' and x['cs'].is_('core::option::Option::ok_or')]
+    if len(xs) == 1 and len(adapters) == 1:
+        a = adapters[0]['cs']
+        v = sem(body, a.args[0])
+        ok = v.kind == 'call' and v.cs is get_cs and not v.proj and agg_variant_of(body, a.args[1]) == err_variant
+        return ok, 'ok_or form'
+    oc = outcomes(body, get_cs)
+    okx = [x for x in xs if x['kind'] == 'agg' and x['variant'] == 'Ok']
+    erx = [x for x in xs if x['kind'] == 'agg' and x['variant'] == 'Err']
+    ok = len(okx) == 1 and len(erx) == 1 and len(xs) == 2 and dominated_by_any(body, oc.get('Some', []), okx[0]['node']) and dominated_by_any(body, oc.get('None', []), erx[0]['node'])
+    ok = ok and agg_variant_of(body, erx[0]['rv']['a'][0]) == err_variant
+    if ok:
+        v = sem(body, okx[0]['rv']['a'][0])
+        ok = v.kind == 'call' and v.cs is get_cs
+    return ok, 'match form: %d Ok exits, %d Err exits' % (len(okx), len(erx))
+
+
+def always_passes(body, start, sinks, escapes=()):
+    """every path from `start` to a return of the function passes one of the `sinks` (nodes), except paths that leave
+    through one of the `escapes` (edges on which doing nothing is the specified behaviour).  Returns (ok, witnesses):
+    the return blocks reachable when sinks and escapes are removed."""
+    avoid = set(sinks) | set(escapes)
+    rs = body.reach_set(start, avoid=avoid) | {start}
+    leak = [n for n in rs if n[0] == 'b' and body.blocks[n[1]]['term']['t'] == 'return']
+    return (not leak, leak)
